@@ -639,8 +639,28 @@ class Exec:
             if (cur is NONE or isinstance(cur, (StrV, FnV, ClassV, ModV))) and not rebinds(node.body + node.orelse, nm):
                 continue  # only method calls on an immutable value: nothing to havoc
             e.vars[nm] = self.havoc_like(cur, f"{nm}.{lid}")
-        # heap: every field the function may modify (declared) or syntactically stores
-        for f in sorted(set(fields) | set(self.fctx.modifies_fields)):
+        # heap: the fields the loop body may modify -- those it stores syntactically plus those that
+        # the contracts of the functions it calls declare (statically, `modifies=` at registration);
+        # a callee under contract without a static declaration may modify anything the enclosing
+        # function may modify
+        callee_fields, unknown = set(), False
+        for st in node.body + node.orelse:
+            for n in ast.walk(st):
+                if isinstance(n, ast.Call):
+                    fname = n.func.id if isinstance(n.func, ast.Name) else (n.func.attr if isinstance(n.func, ast.Attribute) else None)
+                    if fname is None:
+                        unknown = True
+                        continue
+                    if fname in self.local_defs:
+                        continue  # nested defs are inlined: their stores were collected syntactically
+                    for sp in [s for s in self.prop.specs if s.name == fname or s.name.endswith("." + fname)]:
+                        if sp.static_modifies is None:
+                            unknown = True
+                        else:
+                            callee_fields |= set(sp.static_modifies)
+        if unknown:
+            callee_fields |= set(self.fctx.modifies_fields)
+        for f in sorted(set(fields) | callee_fields):
             if f in self.prop.fields:
                 self.havoc_field(f, lid)
         return names
